@@ -14,6 +14,7 @@
 #include <vector>
 
 #include "explore.h"
+#include "seqwatch.h"
 
 using namespace Vector::BLF;
 
@@ -119,6 +120,7 @@ static std::string hist_str(const std::string & h) {
 }
 
 static bool run_history(const std::string & h, Model & m, std::string * rkey, std::string & why) {
+    seqwatch::arm(h);
     for (int & d : g_dtor) d = 0;
     int written = 0;
     {
@@ -144,6 +146,7 @@ int main(int argc, char ** argv) {
     std::string replay = args.str("replay", "");
     ALPHA = {{WRITE, 0}, {READ, 0}, {SETFS, 0}, {SETFS, 1}, {SETFS, 2}, {ABORT, 0}, {SETCAP, 1}, {SETCAP, 2}, {SETCAP, 3}};
     double t0 = vx::now_s();
+    seqwatch::install("seq_queue", args.json(), hist_str);
     if (!replay.empty()) {
         std::string h;
         for (const char * p = replay.c_str(); *p;) { h.push_back((char)strtol(p, (char **)&p, 10)); if (*p == ',') p++; }
